@@ -5,9 +5,9 @@
 EXTENDS Cli, Json, IOUtils, SequencesExt, FiniteSetsExt
 \* the parameter set of the database the `query` rows run against: the first non-default one ("K1" in the main table, "K5" in the
 \* long-prefix table)
-QueryDb == IF "K1" \in Params THEN "K1" ELSE "K5"
+QueryDb == IF "K1" \in Params THEN "K1" ELSE IF "K5" \in Params THEN "K5" ELSE "K7"
 Enc(o) == IF o.ok THEN [ok |-> TRUE, ks |-> o.ks] ELSE [ok |-> FALSE, ks |-> ""]
-EncE(e) == IF e = None THEN "none" ELSE IF e = Partial THEN "partial" ELSE The(e)
+EncE(e) == IF e = None THEN "none" ELSE IF e = Partial THEN "partial" ELSE IF e = Invalid THEN "invalid" ELSE The(e)
 DistRows == { [cmd |-> "dist", explicit |-> EncE(e), q |-> q, r |-> r, expect |-> Enc(DistDef(e, q, r))] :
                 e \in Explicits, q \in QSources, r \in RSources }
 QueryRows == { [cmd |-> "query", explicit |-> "none", q |-> q, r |-> [kind |-> "db", ks |-> QueryDb],
